@@ -10,6 +10,7 @@ import (
 	"time"
 
 	"github.com/honeycombio/refinery/internal/verifkit"
+	"github.com/honeycombio/refinery/logger"
 	"github.com/jonboulle/clockwork"
 )
 
@@ -101,6 +102,7 @@ type c30Harness struct {
 	reporter Reporter
 	unit     time.Duration
 	panicked string
+	logger   logger.Logger // optional collaborator stub (used by the concurrent driver)
 }
 
 func (h *c30Harness) Reset(init map[string]any) error {
@@ -115,7 +117,7 @@ func (h *c30Harness) Reset(init map[string]any) error {
 	h.unit = time.Duration(u) * time.Millisecond
 	h.panicked = ""
 	h.clock = &c30Clock{FakeClock: clockwork.NewFakeClock(), created: make(chan struct{}, 1)}
-	h.health = &Health{Clock: h.clock}
+	h.health = &Health{Clock: h.clock, Logger: h.logger}
 	if err := h.health.Start(); err != nil {
 		return err
 	}
